@@ -260,25 +260,33 @@ class Ctx:
     # ------------------------------------------------------------------ implementation runs
     def run_impl(self, script: str, payload, timeout=1800, env=None) -> dict:
         """Run tools/harness/<script> under /venv/bin/python against /repo; JSON in, JSON out."""
+        timeout = 900 if self.tier == "quick" else 3600
         d = self.scratch("impl")
         try:
             inp = d / "in.json"
             outp = d / "out.json"
             inp.write_text(json.dumps(payload))
-            r = subprocess.run(
-                [PY, str(VERIF / "tools" / "harness" / script), str(inp), str(outp)],
-                capture_output=True, text=True, env=impl_env(env), cwd=str(REPO), timeout=timeout,
-            )
+            try:
+                r = subprocess.run(
+                    [PY, str(VERIF / "tools" / "harness" / script), str(inp), str(outp)],
+                    capture_output=True, text=True, env=impl_env(env), cwd=str(REPO), timeout=timeout,
+                )
+            except subprocess.TimeoutExpired:
+                return {"_error": f"timeout: the implementation did not finish within {timeout} s"}
             if r.returncode != 0 or not outp.exists():
                 return {"_error": (r.stdout + r.stderr)[-4000:]}
             return json.loads(outp.read_text())
         finally:
             shutil.rmtree(d, ignore_errors=True)
 
-    def run_impl_jobs(self, script: str, jobs: list, key="jobs", timeout=3000, env=None, shards=None) -> list:
+    def run_impl_jobs(self, script: str, jobs: list, key="jobs", timeout=None, env=None, shards=None) -> list:
         """Run a list of independent jobs through tools/harness/<script>, sharded over processes.
-        Returns the per-job results in order ({"error":...} for a crashed shard)."""
+        Returns the per-job results in order ({"error":...} for a crashed shard).  A shard that does not finish
+        (quick tier: 15 min, thorough: 60 min - two orders of magnitude above the normal run time) is killed and its
+        jobs are reported as HarnessTimeout, which every check turns into a violation: an implementation that hangs is
+        not silently waited for."""
         from concurrent.futures import ThreadPoolExecutor
+        timeout = 900 if self.tier == "quick" else 3600
         n = max(1, min(shards or NPROC, len(jobs)))
         idx = [list(range(k, len(jobs), n)) for k in range(n)]
 
